@@ -491,7 +491,7 @@ func runPlugin(r *runner, c *PluginCase) (parsed bool) {
 		if err != nil {
 			panic(harnessPanic{"harness: verifier construction: " + err.Error()})
 		}
-		for _, name := range []string{"jws/oci/plugin", "cose/oci/crit-unknown", "jws/oci/plugin-minver"} {
+		for _, name := range []string{"jws/oci/plugin", "cose/oci/crit-unknown", "jws/oci/plugin-minver", "cose/oci/crit-int-label"} {
 			b := f.byName[name]
 			cc := &Case{Entry: "verifier.Verify", Cfg: Cfg{Docs: "oci"}}
 			var res callResult
